@@ -163,6 +163,8 @@ pub fn explore<Sc: Scenario>(sc: &Sc, lim: &Limits, known_keys: &[String]) -> Re
     rep.levels.push(frontier.len());
     let mut depth = 0usize;
     const CHUNK: usize = 2048;
+    let mut last_level_count = 0usize;
+    let mut last_sample: Option<u128> = None;
     'outer: while !frontier.is_empty() && depth < lim.max_depth && pending_viol.iter().all(|(v, _, _)| known_keys.contains(&v.key)) {
         let mut next: Vec<(u128, Sc::S)> = Vec::new();
         for chunk in frontier.chunks(CHUNK) {
@@ -181,6 +183,7 @@ pub fn explore<Sc: Scenario>(sc: &Sc, lim: &Limits, known_keys: &[String]) -> Re
                 })
                 .collect();
             // merge sequentially (deterministic order)
+            #[allow(unused_mut)]
             let mut fresh: Vec<(u128, Sc::S)> = Vec::new();
             for ((pf, _), succs) in chunk.iter().zip(expanded.into_iter()) {
                 for (a, st, f) in succs {
@@ -222,7 +225,15 @@ pub fn explore<Sc: Scenario>(sc: &Sc, lim: &Limits, known_keys: &[String]) -> Re
                 }
             }
             rep.states += fresh.len() as u64;
-            next.extend(fresh);
+            if depth + 1 < lim.max_depth {
+                next.extend(fresh);
+            } else {
+                // states of the last level are judged (above) but never expanded: they need not be kept
+                last_level_count += fresh.len();
+                if let Some(x) = fresh.pop() {
+                    last_sample = Some(x.0);
+                }
+            }
             if visited.len() > lim.max_states {
                 rep.capped = Some(format!("state cap {} hit at depth {}", lim.max_states, depth + 1));
                 break 'outer;
@@ -238,11 +249,11 @@ pub fn explore<Sc: Scenario>(sc: &Sc, lim: &Limits, known_keys: &[String]) -> Re
         }
         depth += 1;
         rep.max_depth = depth;
-        rep.levels.push(next.len());
+        rep.levels.push(next.len() + last_level_count);
         // keep a few sample paths
-        if let Some((f, _)) = next.last() {
+        if let Some(f) = next.last().map(|x| x.0).or(last_sample) {
             if rep.sample_paths.len() < 4 {
-                let (seed, path) = rebuild::<Sc>(&visited, &arena, *f, &seeds);
+                let (seed, path) = rebuild::<Sc>(&visited, &arena, f, &seeds);
                 rep.sample_paths.push((seed, path));
             }
         }
